@@ -4,6 +4,7 @@ import (
 	"crypto/sha1"
 	"encoding/json"
 	"fmt"
+	"golang.org/x/tools/go/ssa"
 	"os"
 	"path/filepath"
 	"sort"
@@ -79,19 +80,94 @@ func (r *Report) Touch(names ...string) {
 }
 
 // Guard runs f; an Undecided panic (or any other panic) becomes an undecided obligation.
+//
+// Anchor re-resolution.  The rule bodies look their entry points up by name (Prog.Func).  When the obligations a
+// body produces are not all discharged, the outermost Guard re-runs the body with ONE of the anchors it looked up
+// resolved to a helper of that anchor instead: a function of the same package that the anchor calls statically
+// and that no other function calls (the shape an "extract function" refactoring leaves behind).  If the body then
+// discharges every obligation, those results stand and a note records on which helper they were decided;
+// otherwise the first results stand.  A step that was moved into a helper carries the constructs the rule reads
+// with it, so the rule is decided where the code now is; a rule that fails on the anchor and on every helper
+// fails as before.  (An anchor that kept a violating copy of the step while a helper holds a good one would be
+// masked: the breaking variants and seeded changes of the thorough tier are the guard against that.)
 func (r *Report) Guard(rule, construct, desc string, f func()) {
-	defer func() {
-		if x := recover(); x != nil {
-			msg := fmt.Sprint(x)
-			if u, ok := x.(Undecided); ok {
-				msg = u.Msg
-			} else {
-				msg = "engine panic: " + msg
+	run := func() {
+		defer func() {
+			if x := recover(); x != nil {
+				msg := fmt.Sprint(x)
+				if u, ok := x.(Undecided); ok {
+					msg = u.Msg
+				} else {
+					msg = "engine panic: " + msg
+				}
+				r.Add(&Obligation{Rule: rule, Construct: construct, Desc: desc, Status: Undec, Detail: msg})
 			}
-			r.Add(&Obligation{Rule: rule, Construct: construct, Desc: desc, Status: Undec, Detail: msg})
+		}()
+		f()
+	}
+	if guardDepth > 0 || AnchorHelpers == nil {
+		guardDepth++
+		run()
+		guardDepth--
+		return
+	}
+	guardDepth++
+	defer func() { guardDepth--; anchorSubst = nil; anchorLog = nil }()
+	start := len(r.Obligations)
+	allOK := func() bool {
+		for _, o := range r.Obligations[start:] {
+			if o.Status == Violated || o.Status == Undec {
+				return false
+			}
 		}
-	}()
-	f()
+		return true
+	}
+	anchorLog = map[*ssa.Function]bool{}
+	anchorSubst = nil
+	run()
+	if allOK() {
+		return
+	}
+	first := append([]*Obligation(nil), r.Obligations[start:]...)
+	var looked []*ssa.Function
+	for fn := range anchorLog {
+		looked = append(looked, fn)
+	}
+	sort.Slice(looked, func(i, j int) bool { return looked[i].String() < looked[j].String() })
+	anchorLog = nil
+	for _, fn := range looked {
+		for _, h := range AnchorHelpers(fn) {
+			r.Obligations = r.Obligations[:start]
+			anchorSubst = map[*ssa.Function]*ssa.Function{fn: h}
+			run()
+			anchorSubst = nil
+			if allOK() && len(r.Obligations) > start {
+				r.Notes = append(r.Notes, fmt.Sprintf("%s %s: decided on %s, the helper of %s that now holds the step", rule, construct, h.String(), fn.String()))
+				r.Touch(FuncName(h))
+				return
+			}
+		}
+	}
+	r.Obligations = append(r.Obligations[:start], first...)
+}
+
+var (
+	guardDepth  int
+	anchorLog   map[*ssa.Function]bool
+	anchorSubst map[*ssa.Function]*ssa.Function
+	// AnchorHelpers gives the re-resolution candidates of an anchor (set by the loader; nil disables re-resolution).
+	AnchorHelpers func(*ssa.Function) []*ssa.Function
+)
+
+// resolveAnchor is applied by Prog.Func to every anchor it returns.
+func resolveAnchor(fn *ssa.Function) *ssa.Function {
+	if anchorLog != nil {
+		anchorLog[fn] = true
+	}
+	if h, ok := anchorSubst[fn]; ok {
+		return h
+	}
+	return fn
 }
 
 // MinInstances fails as undecided if fewer than n obligations of the rule exist.
